@@ -116,9 +116,12 @@ func payloadOf(l gopacket.Layer) []byte {
 
 // samePayload: the Ethernet serializer pads payloads to the 46 byte minimum; the padding is indistinguishable from
 // payload for a frame without a length field.
-func samePayload(t gopacket.LayerType, want, got []byte) bool {
+func samePayload(t gopacket.LayerType, x any, want, got []byte) bool {
 	if bytes.Equal(want, got) {
 		return true
+	}
+	if e, ok := x.(*layers.Ethernet); ok && e.EthernetType == layers.EthernetTypeLLC {
+		return false // an 802.3 frame carries its length: the decoder strips the padding, the payload comes back exactly
 	}
 	if t == layers.LayerTypeEthernet && len(want) < 46 && len(got) == 46 && bytes.Equal(got[:len(want)], want) {
 		for _, x := range got[len(want):] {
@@ -247,7 +250,7 @@ func c06Check(c *vlib.Ctx, it c06Item, how string) {
 		c.Violation(tk+tag+":B-truncated-flag", fmt.Sprintf("%s written with FixLengths+ComputeChecksums decodes with the truncation flag set", it.t), det())
 		return
 	}
-	if !samePayload(it.t, it.payload, payloadOf(l1)) {
+	if !samePayload(it.t, l1, it.payload, payloadOf(l1)) {
 		c.Violation(tk+tag+":B-payload-differs", fmt.Sprintf("%s written over a %d byte payload decodes with a %d byte payload", it.t, len(it.payload), len(payloadOf(l1))), det())
 		return
 	}
